@@ -5,7 +5,7 @@
    correspondence run (DESIGN section 5, C09). *)
 From Coq Require Import ZArith List Lia Bool.
 Import ListNotations.
-From LX Require Import Generated.Tables Model.Crc Proofs.CrcProofs.
+From LX Require Import Generated.Tables Model.Crc Proofs.CrcProofs Model.CrcBE Proofs.CrcBEProofs.
 Local Open Scope Z_scope.
 
 (* the tables in crc32.c are the tables of the two polynomials (a corrupted entry breaks this) *)
@@ -41,3 +41,30 @@ Example c09_nonvacuous :
   crc32_A [49;50;51;52;53;54;55;56;57] 0 = 3421780262 /\ crc16_IBM [49;50;51;52;53;54;55;56;57] 0 = 47933 /\
   gate32 3421780262 9 [49;50;51;52;53;54;55;56;57] = true /\ gate32 3421780262 9 [49;50;51;52;53;54;55;56;56] = false.
 Proof. vm_compute. repeat split. Qed.
+
+(* ---------------------------------------------------------------- bzip2 ------------------------------------------------ *)
+
+(* bzip2's block CRC (big-endian CRC-32, table built at run time by crc_init) changes under any substitution of one byte anywhere
+   in a block of any length, and the depacker's accept decision - every block's CRC equal to the one in its header, the combined
+   value equal to the stored stream CRC - therefore refuses a stream in which one decoded block differs in one byte from what the
+   header CRCs were computed for, while it accepts the original. *)
+Theorem bzip2_crc_detects_byte_substitution : forall pre b b' post,
+  Forall CrcBEProofs.byte pre -> CrcBEProofs.byte b -> CrcBEProofs.byte b' -> Forall CrcBEProofs.byte post -> b <> b' ->
+  bz_block_crc (pre ++ b :: post) <> bz_block_crc (pre ++ b' :: post).
+Proof. exact bz_block_crc_detects_substitution. Qed.
+Print Assumptions bzip2_crc_detects_byte_substitution.
+
+Theorem bzip2_gate : forall before pre b b' post after stored,
+  Forall CrcBEProofs.byte pre -> CrcBEProofs.byte b -> CrcBEProofs.byte b' -> Forall CrcBEProofs.byte post -> b <> b' ->
+  bz_gate (before ++ (pre ++ b' :: post) :: after) (map bz_block_crc (before ++ (pre ++ b :: post) :: after)) stored = false /\
+  bz_gate (before ++ (pre ++ b :: post) :: after) (map bz_block_crc (before ++ (pre ++ b :: post) :: after)) (bz_stream_crc (before ++ (pre ++ b :: post) :: after)) = true.
+Proof.
+  intros. split; [apply bz_gate_rejects_block_substitution; assumption | apply bz_gate_accepts_original].
+Qed.
+Print Assumptions bzip2_gate.
+
+Example c09_bzip2_nonvacuous :
+  bz_block_crc [49;50;51;52;53;54;55;56;57] = 4236843288 /\ nth 1 be_table 0 = 79764919 /\
+  bz_gate [[1;2;3]; [4]] (map bz_block_crc [[1;2;3]; [4]]) (bz_stream_crc [[1;2;3]; [4]]) = true /\
+  bz_gate [[1;2;7]; [4]] (map bz_block_crc [[1;2;3]; [4]]) (bz_stream_crc [[1;2;3]; [4]]) = false.
+Proof. vm_compute. repeat split; reflexivity. Qed.
